@@ -552,6 +552,8 @@ impl Monitor for C07 {
             ("single", tier.pick(3000000, 300000000)),
             ("convert", tier.pick(600000, 60000000)),
             ("big", tier.pick(30_000, 1_500_000)),
+            ("bytesweep", tier.pick(5_000, 300_000)),
+            ("wordsweep", tier.pick(64, 4_000)),
         ]
     }
 
@@ -600,6 +602,21 @@ impl Monitor for C07 {
             }
             "readers" => self.readers(rep, rng),
             "single" => self.single(rep, rng),
+            "wordsweep" => {
+                gen::wordsweep(rng, |c| {
+                    self.whole(rep, c);
+                });
+                rep.count("wordsweeps");
+            }
+            "bytesweep" => {
+                for c in gen::bytesweep(rng) {
+                    rep.count("bytesweep_cases");
+                    self.whole(rep, &c);
+                    if c.start == Start::Ip {
+                        self.ip_level(rep, &c.bytes);
+                    }
+                }
+            }
             "big" => {
                 let mut o = GenOpts::hostile();
                 o.trailing = 9;
